@@ -20,7 +20,8 @@ def run_one(item):
         for pid in claimed:
             r = subprocess.run([os.path.join(V, 'check'), pid], env=env, stdout=subprocess.PIPE, stderr=subprocess.STDOUT, text=True)
             rules = sorted({l.split()[1] for l in r.stdout.splitlines() if l.startswith('  [')})
-            res[pid] = {'rc': r.returncode, 'rules': rules}
+            kinds = sorted({l.split()[0].strip('[]') + ':' + l.split()[1] for l in r.stdout.splitlines() if l.startswith('  [')})
+            res[pid] = {'rc': r.returncode, 'rules': rules, 'kinds': kinds}
     finally:
         shutil.rmtree(tmp, ignore_errors=True)
     return name, res
@@ -49,4 +50,5 @@ for name in sorted(out):
     own = name.split('-')[0] if not name.startswith('regress') else '-'
     hits = ['%s: %s' % (p, ','.join(v['rules'])) for p, v in sorted(r.items()) if v['rc'] == 1]
     errs = [p for p, v in r.items() if v['rc'] not in (0, 1)]
-    print('| %s | %s | %s%s |' % (name, ('caught' if own in r and r[own]['rc'] == 1 else ('MISSED' if own in r else '-')), '; '.join(hits) or 'nothing', (' ERR:' + ','.join(errs)) if errs else ''))
+    definite = own in r and any(k.startswith('violation:') for k in r[own].get('kinds', []))
+    print('| %s | %s | %s%s |' % (name, (('caught' + ('' if definite else ' (undecided/anchor only)')) if own in r and r[own]['rc'] == 1 else ('MISSED' if own in r else '-')), '; '.join(hits) or 'nothing', (' ERR:' + ','.join(errs)) if errs else ''))
